@@ -153,3 +153,47 @@ def class_compile_obligations(rep, tier, unit='wiring:Class._compile'):
                 want_params = (['_ctx'] if ctx else []) + ['_text', '_pos'] + (cls.params or [])
                 rep.add(unit, f'_try_Foo signature is ([_ctx,] _text, _pos, *params) {tag}', 'case_complete',
                         astutil.params_of(fdef) == want_params, detail={'got': astutil.params_of(fdef)})
+
+
+def requests_in(fn):
+    """callee texts of the driver requests `yield (CALL, callee, pos)` inside an emitted function"""
+    out = []
+    for n in ast.walk(fn):
+        if isinstance(n, ast.Yield) and isinstance(n.value, ast.Tuple) and len(n.value.elts) == 3 \
+                and isinstance(n.value.elts[0], ast.Constant) and n.value.elts[0].value == 3:
+            out.append(ast.unparse(n.value.elts[1]))
+    return out
+
+
+SHADOW_CASES = [
+    # (description, function to inspect, expected request callees in order [unnamed grammar])
+    ('rule parameter shadows a rule', 'X = "x"\nT(X) = X\nstart = T("a")', '_try_T', ['X']),
+    ('class parameter shadows a rule', 'X = "x"\nclass C(X) {\n f: X\n}\nstart = C("a")', '_try_C', ['X']),
+    ('let shadows a rule', 'X = "x"\nL = let X = "q" in X << X\nstart = L', '_try_L', ['X', 'X']),
+    ('reference outside the binder still denotes the rule', 'X = "x"\nT(X) = X\nstart = [T("a"), X]', '_try_start', None),
+    ('unshadowed rule reference', 'X = "x"\nT(Y) = [Y, X]\nstart = T("a")', '_try_T', ['Y', '_try_X']),
+    ('parameter used after an inner let of another name', 'X = "x"\nT(p) = let q = p in [q, p, X]\nstart = T("a")', '_try_T', ['p', 'q', 'p', '_try_X']),
+]
+
+
+def ref_resolution_obligations(rep, tier, unit='wiring:reference-resolution'):
+    """a reference denotes the innermost enclosing binder of that name (parameter / let), otherwise the rule (C05, C06, C20)"""
+    from pyvc import runtime
+    for title, desc, fname, want in SHADOW_CASES:
+        for named in (False, True):
+            text = ('grammar shadowtest\n' if named else '') + desc
+            try:
+                src = runtime.generated_module_source(text)
+            except Exception as e:
+                rep.add(unit, f'{title} [named={int(named)}]', 'case_complete', False, detail={'error': repr(e)})
+                continue
+            tree = ast.parse(src)
+            fn = next(n for n in tree.body if isinstance(n, ast.FunctionDef) and n.name == fname)
+            got = requests_in(fn)
+            if want is None:
+                # start = [T("a"), X]: second request must be the RULE X
+                ok = len(got) == 2 and got[1] == ('_ctx._try_X' if named else '_try_X')
+            else:
+                exp = [(('_ctx.' + w) if named and w.startswith('_try_') else w) for w in want]
+                ok = got == exp
+            rep.add(unit, f'{title} [named={int(named)}]', 'case_complete', ok, detail={'requests': got, 'src': ast.unparse(fn)})
